@@ -143,7 +143,7 @@ func TestC10NeverWedges(t *testing.T) {
 			}
 		}
 		failure := rapid.SampledFrom([]string{"foreign-publish-write-fails", "foreign-subscribe-write-fails", "foreign-ping-write-fails",
-			"foreign-persisted-write-fails", "read-reset", "read-eof", "mid-packet-stall", "own-write-fails", "silence"}).Draw(rt, "failure")
+			"foreign-persisted-write-fails", "read-reset", "read-eof", "mid-packet-stall", "own-write-fails", "silence", "read-fails-close-is-slow"}).Draw(rt, "failure")
 		// requests which wait on this connection
 		pinged := false
 		for i := 0; i < rapid.IntRange(0, 2).Draw(rt, "waiting"); i++ {
@@ -194,6 +194,28 @@ func TestC10NeverWedges(t *testing.T) {
 				pending = append(pending, h.ping())
 			case "foreign-persisted-write-fails":
 				h.pub(1, false)
+			}
+		case "read-fails-close-is-slow":
+			// the read routine notices the failure itself; closing the
+			// connection takes a while, during which a writer which held the
+			// lock completes and a new request goes out on the connection:
+			// it must be released by this very loss like the earlier ones
+			if c != nil && c.Accepted() {
+				c.ParkClose()
+				// (the peer half-closed: reading ends, writes are still taken)
+				c.ArmRead(sim.RFault{Off: c.InEnqueued(), Kind: sim.REOF})
+				if !h.App.InCall() {
+					h.App.Step()
+				}
+				h.PollQuiet(quiet, func() bool { return c.CloseParked() })
+				if c.CloseParked() {
+					for c.ReleaseWrite() {
+					}
+					h.PollQuiet(quiet, func() bool { return false })
+					pending = append(pending, h.sub(1, 1))
+					h.label("request-issued-while-the-failed-connection-is-being-closed")
+				}
+				c.ReleaseClose()
 			}
 		case "read-reset":
 			if c != nil {
